@@ -1,6 +1,7 @@
 /-
 Translated Python (`BtcHd.Code`, generated from /repo by harness/translate.py) = hand-written model:
-`bip39.py` length helpers and `bip85.py` `byte_count_from_word_count`.
+`bip39.py` length helpers, `correct_entropy_bits_value`, `mnemonic_from_entropy` (the whole sentence construction of
+C04, SHA-256 a parameter on both sides) and `bip85.py` `byte_count_from_word_count`.
 -/
 import BtcHd.Generated.Code
 import BtcHd.Model.Bip39
@@ -24,6 +25,29 @@ theorem byteCount_eq (wc : Nat) :
     Code.byte_count_from_word_count wc = Bip85.byteCountFromWordCount (wc : Int) := by
   unfold Code.byte_count_from_word_count Bip85.byteCountFromWordCount
   by_cases h : wc ∈ Generated.correctMnemonicLength <;> simp [h]
+
+/-- The translated `correct_entropy_bits_value` fails exactly outside the five legal sizes. -/
+theorem correct_bits_eq (n : Nat) :
+    Code.correct_entropy_bits_value n = if n ∈ Generated.correctEntropyBits then some () else none := by
+  unfold Code.correct_entropy_bits_value
+  by_cases h : n ∈ Generated.correctEntropyBits <;> simp [h]
+
+/-- The translated `mnemonic_from_entropy` is the model's `mnemonicFromEntropy`, for every hex text and every hash
+function: `bytes.fromhex`, the size guard, `bin()`/`zfill`/slicing, the 11-character chunks, `int(·, 2)`, the word
+look-up and the join. -/
+theorem mnemonic_from_entropy_eq (sha256 : Bytes → Bytes) (e : List Char) :
+    Code.mnemonic_from_entropy sha256 e = Bip39.mnemonicFromEntropy sha256 e := by
+  unfold Code.mnemonic_from_entropy Bip39.mnemonicFromEntropy Bip39.wordsFromEntropy Bip39.indexesFromEntropy
+  simp only [correct_bits_eq, checksumLength_eq]
+  cases fromHex e with
+  | none => rfl
+  | some eb =>
+    simp only [Option.bind_eq_bind, Option.bind_some, Code.big_endian_to_int, Id.run_pure]
+    by_cases h : eb.length * 8 ∈ Generated.correctEntropyBits
+    · simp only [h, if_true, Option.bind_some]
+      generalize List.mapM Bip39.wordAt _ = r
+      cases r <;> rfl
+    · simp [h]
 
 example : Code.checksum_length 256 = 8 := by decide +kernel
 example : Code.mnemonic_sentence_length 128 = 12 := by decide +kernel
